@@ -258,7 +258,7 @@ theorem parseQuantityInner_indG_loc (s : BP α) (hc : s.cur = 0)
     cases e.has Gen.EXT_ADVANCED_UNITS
     · rfl
     · simp only [if_true]
-      exact withRecover_none (parseAdvancedQuantity_declines (s.withExt e) hc ha)
+      exact withRecover_none_ext (parseAdvancedQuantity_declines (s.withExt e) hc ha)
 
 theorem parseQuantity_indGA_loc (q : List Tok) (hr : Gen.EXT_RANGE_VALUES ∈ G ∨ noMinus q = true)
     (ha : Gen.EXT_ADVANCED_UNITS ∈ G ∨ advNone q = true) : IndGA G (parseQuantity (α := α) q) := by
